@@ -22,7 +22,7 @@ open Masscanned.Spec Masscanned.E2E
     answer". -/
 inductive ReqT (env : Env) (dst : Ip) (dport : Nat) (p : Bytes) : (Bytes → Prop) → Nat → Prop
   | http (h : strictRequest p = true) (hd : ∀ b ∈ env.httpDate, b ≠ 10 ∧ b ≠ 13)
-      (hl : env.httpDate.length ≤ 65000) :
+      (hl : Texts.httpFixedLen + env.httpDate.length ≤ 65495) :
       ReqT env dst dport p (fun a => a = httpReplyBytes env ∧ reply401Ok a = true) PROTO_HTTP
   | ssh (h : sshAnswered p = true) : ReqT env dst dport p (fun a => a = sshBannerExpected) PROTO_SSH
   | ghost (h : "Gh0st".toUTF8.toList.isPrefixOf p = true) :
@@ -141,9 +141,13 @@ example : ∃ r tcb, (step C18.cfgE envD [] tcp4Get).out = .ok (some r) ∧ fram
     (step C18.cfgE envD [] tcp4Get).st = [] ++ [(Fr.ckOf C18.cfgE false tcp4Get, tcb)] ∧
     tcb.protoId = PROTO_HTTP := by
   have e : tcpPayload (l4Bytes tcp4Get) = "GET / HTTP/1.0\r\n\r\n".toUTF8.toList := by decide +kernel
+  have hfit : Texts.httpFixedLen + envD.httpDate.length ≤ 65495 := by
+    have := Texts.httpFixed_le
+    have : envD.httpDate.length = 31 := by decide +kernel
+    omega
   exact tcp_first_segment_e2e false (cfg := C18.cfgE) (env := envD) (st := []) (f := tcp4Get) (by decide)
     (by decide +kernel) (by decide +kernel) (by decide +kernel) (by decide +kernel)
-    (by rw [e]; exact ReqT.http (env := envD) (by decide +kernel) (by decide +kernel) (by decide +kernel))
+    (by rw [e]; exact ReqT.http (env := envD) (by decide +kernel) (by decide +kernel) hfit)
 
 #print axioms app_of_reqT
 #print axioms tcp_first_segment_e2e
